@@ -12,6 +12,7 @@ import (
 	"math/rand"
 	"sort"
 	"strconv"
+	"time"
 
 	abci "github.com/cometbft/cometbft/abci/types"
 	sdk "github.com/cosmos/cosmos-sdk/types"
@@ -410,6 +411,12 @@ func (w *World) Fresh(on, from *vnet.Chain) bool {
 		return false
 	}
 	r := w.Do(&Action{Kind: "update", On: on, From: from, Msgs: []sdk.Msg{msg}, Signer: on.Relayer, Honest: true})
+	if r.OK() {
+		// a client with a confirmation delay only accepts proofs once the delay has elapsed since the update
+		if cs, ok := on.App.TIBCKeeper.ClientKeeper.GetClientState(on.Ctx(), from.Name); ok && cs.GetDelayTime() > 0 {
+			w.Net.Advance(time.Duration(cs.GetDelayTime()))
+		}
+	}
 	return r.OK()
 }
 
